@@ -42,10 +42,10 @@ def run_patch(patch, plist, jobs):
 
 def main():
     ap = argparse.ArgumentParser()
-    ap.add_argument("-p"); ap.add_argument("--id"); ap.add_argument("-j", type=int, default=8); ap.add_argument("--json")
+    ap.add_argument("-p"); ap.add_argument("--id"); ap.add_argument("--dir", default=""); ap.add_argument("-j", type=int, default=8); ap.add_argument("--json")
     a = ap.parse_args()
     plist = [a.p] if a.p else props()
-    patches = sorted(glob.glob(f"{VERIF}/refactors/*.diff"))
+    patches = sorted(glob.glob(f"{VERIF}/refactors/{a.dir + '/' if a.dir else ''}*.diff"))
     if a.id:
         patches = [x for x in patches if a.id in os.path.basename(x)]
     res = []
